@@ -223,39 +223,46 @@ mod codecs {
         }
     }
 
-    /// decode(encode(m) ++ tail) == m, consuming exactly |encode(m)|; a buffer that is one byte too short is an error, not a panic
+    /// decode(encode(m) ++ tail) == m, consuming exactly |encode(m)| (stack buffers only: no allocator modelling)
     fn member_roundtrip<C: Codec<u16>>(mut codec: C) {
         let m = Member::new(kani::any::<u16>(), kani::any::<u16>(), any_state());
-        let mut buf = alloc::vec::Vec::new();
-        assert!(codec.encode_member(&m, &mut buf).is_ok());
-        let n = buf.len();
+        let mut buf = [0u8; 12];
+        let n = {
+            let mut w = &mut buf[..];
+            assert!(codec.encode_member(&m, &mut w).is_ok());
+            12 - w.remaining_mut()
+        };
         assert!(n >= 1 && n <= 8);
-        buf.push(kani::any::<u8>());
-        let mut rd = &buf[..];
+        buf[n] = kani::any::<u8>();
+        let mut rd = &buf[..n + 1];
         let back = codec.decode_member(&mut rd);
         assert!(back.is_ok());
         assert!(back.unwrap() == m);
         assert!(rd.len() == 1);
     }
 
-    /// insufficient space (every size below the encoded length): an error, never a panic, never a write past the limit
+    /// insufficient space (every size below the minimum encoded length): an error, never a panic, never a write past the limit
     fn member_short<C: Codec<u16>>(mut codec: C) {
         let m = Member::new(kani::any::<u16>(), kani::any::<u16>(), any_state());
         let short = kani::any::<usize>();
         kani::assume(short < 3);
-        let mut lim = alloc::vec::Vec::new().limit(short);
+        let mut buf = [0u8; 4];
+        let mut w = &mut buf[..short];
         // a Member<u16> needs at least 3 bytes in both codecs
-        assert!(codec.encode_member(&m, &mut lim).is_err());
-        assert!(lim.get_ref().len() <= short);
+        assert!(codec.encode_member(&m, &mut w).is_err());
     }
 
     fn header_roundtrip<C: Codec<u16>>(mut codec: C, lo: u8, hi: u8) {
         let h = Header { src: kani::any::<u16>(), src_incarnation: kani::any::<u16>(), dst: kani::any::<u16>(), message: any_message_in(lo, hi) };
-        let mut buf = alloc::vec::Vec::new();
-        assert!(codec.encode_header(&h, &mut buf).is_ok());
-        let n = buf.len();
-        buf.push(kani::any::<u8>());
-        let mut rd = &buf[..];
+        let mut buf = [0u8; 24];
+        let n = {
+            let mut w = &mut buf[..];
+            assert!(codec.encode_header(&h, &mut w).is_ok());
+            24 - w.remaining_mut()
+        };
+        assert!(n >= 4 && n <= 20);
+        buf[n] = kani::any::<u8>();
+        let mut rd = &buf[..n + 1];
         let back = codec.decode_header(&mut rd);
         assert!(back.is_ok());
         assert!(back.unwrap() == h);
